@@ -10,6 +10,9 @@ KS_NOTE = ("Trusted: TLC, the transcription of the Redis command reference in sp
            "(memdb/verif_inspect.go). B1 is exhaustive only within the instance bounds; B2 is sampled.")
 
 CHECKS = {
+    "C14": dict(cat="model_checking", ref="§C14", technique="TLA+ codec model (Codec.tla: faithful codec = identity, old space-joined codec corrupts the expected classes) with every enumerated argument vector pushed through the real cluster path; the keyspace transition tables and random programmes replayed through the real cluster handler + proposal JSON + apply loop (in process) and through real 1- and 3-node clusters, validated by TraceKs.tla with read-back on every replica",
+                text="Every argument vector of up to 2 (quick) / 3 (thorough) arguments over {a, A, space, CR, LF, 0xFF} (incl. empty arguments) must come back byte for byte through HandleCluster -> RaftProposal JSON -> apply loop -> executor; every branch label of every family's bounded model and random programmes with binary arguments are run through the same path and through real clusters, and must satisfy the same reference keyspace as the standalone server, on every replica.",
+                note="Trusted: TLC, the Keyspace spec, the verif hook server/verif_cluster.go (replaces only the Raft transport). Real clusters are sampled (a few programmes per family and a sample of codec vectors) because every command costs a Raft round trip."),
     "C05": dict(cat="model_checking", ref="§C05", technique="concurrent histories recorded from the real code (verif lock/map hooks yield at seeded points) checked for linearizability by TLC against the TLA+ keyspace spec (TraceLin.tla, just-in-time linearization over candidate configurations); quiescent invariants (key counter, KEYS/EXISTS, structures, lock hygiene)",
                 text="Hundreds (quick) to thousands (thorough) of short concurrent histories on keys that collide on lock stripes and map shards are decided exactly by TLC: a history is accepted iff some sequential order of its commands, consistent with real time, explains every reply under Keyspace.Exec, including a sequential read-back of every key. A churn workload with 8-16 clients targets the shared key counter and KEYS under write load.",
                 note="Trusted: TLC, Keyspace spec, ticket ordering (taken before invoke / after return: can only make the check more permissive). Schedules are those the Go scheduler produces under seeded yields; the check is a sampled exploration of interleavings with an exact per-history decision."),
